@@ -16,6 +16,7 @@ ASSUMPTIONS = ['per-member call partition uses the serial in-process map (member
                'a missing _all_* attribute would be inconclusive, not an alarm']
 CLASSES = {
     'ensembles': {'quick': 520, 'thorough': 4000},
+    'wrappers': {'quick': 300, 'thorough': 4000},
     'generators': {'quick': 2400, 'thorough': 24000},
 }
 MIN_EVENTS = {'quick': {'assert:ens': 1000, 'assert:gen': 600, 'members': 400}}
@@ -142,6 +143,50 @@ def run_ensemble(rng, obs):
     obs.notes = {'members': len(allE), 'total_evals': int(total), 'distinct_member_bests': distinct, 'bestE': be}
 
 
+def run_wrappers(rng, obs):
+    """the one-liners lattice() / buckshot() / sparsity(): the bounds=, constraints= and penalty= keywords reach every member, the returned
+    allfuncalls is the number of real cost calls, the returned optimum is the best evaluated objective"""
+    from mystic.solvers import lattice, buckshot, sparsity, NelderMeadSimplexSolver, PowellDirectionalSolver
+    which = rng.choice(['lattice', 'buckshot', 'sparsity'])
+    dim = rng.randint(1, 3)
+    spec = K.gen_cost(rng, dim, ['sphere', 'illquad', 'rosen', 'abs'])
+    raw = K.make_cost(spec)
+    box = K.gen_box(rng, dim, None, shape='finite')
+    cons = K.gen_constraint(rng, dim, box) if rng.random() < 0.5 else None
+    pen = K.gen_penalty(rng, dim) if rng.random() < 0.4 else None
+    n = rng.choice([2, 3, 4, 5]) if which != 'sparsity' else rng.choice([2, 3])
+    maxiter = rng.choice([3, 10, 30]); maxfun = rng.choice([None, 150])
+    nested = rng.choice([None, None, 'nm', 'powell'])
+    obs.desc = {'wrapper': which, 'dim': dim, 'cost': spec, 'box': [box['lo'], box['hi']], 'cons': cons, 'pen': pen, 'n': n, 'maxiter': maxiter, 'maxfun': maxfun, 'nested': nested}
+    probe = K.CostProbe(raw)
+    refc = K.ref_constraint(cons) if cons else None
+    refpen = K.ref_penalty(pen)
+    bad_box, bad_cons, vals = [], [], []
+    def hook(seq, x):
+        if not K.in_box(x, box) and len(bad_box) < 3: bad_box.append([seq, list(x)])
+        if refc and refc(list(x)) != list(x) and len(bad_cons) < 3: bad_cons.append([seq, list(x)])
+    probe.hooks.append(hook)
+    kw = {'disp': 0, 'full_output': 1, 'bounds': list(zip(box['lo'], box['hi'])), 'maxiter': maxiter, 'maxfun': maxfun}
+    if cons: kw['constraints'] = K.make_constraint(cons)
+    if pen: kw['penalty'] = K.make_penalty(pen)
+    if nested: kw['solver'] = {'nm': NelderMeadSimplexSolver, 'powell': PowellDirectionalSolver}[nested]
+    fn = {'lattice': lattice, 'buckshot': buckshot, 'sparsity': sparsity}[which]
+    out = fn(probe, dim, **({'nbins': n} if which == 'lattice' else {'npts': n}), **kw)
+    xopt, fopt, allcalls = [float(v) for v in np.atleast_1d(out[0])], float(out[1]), int(out[5])
+    ck = lambda ok, what, **k2: obs.check(ok, 'ens:' + what, ensemble=which, nested=nested, map='default', monitors='wrapper', restart=False, **k2)
+    ck(not bad_box, 'every cost call of every member lies inside the strict ranges', first=bad_box, through='bounds= keyword')
+    ck(not bad_cons, 'every cost call of every member satisfies the constraints', first=bad_cons, cons=cons, through='constraints= keyword')
+    ck(allcalls == probe.n, 'total evaluation count equals the number of real cost calls', total=allcalls, real=probe.n, step=False, through='allfuncalls of the wrapper')
+    if math.isfinite(fopt):
+        objs = [K.fnum(c[1]) + refpen(list(c[0])) for c in probe.calls]
+        ck(abs(fopt - min(objs)) <= 1e-12 * max(1.0, abs(fopt)), 'reported best energy is the minimum of the member bests', observed=fopt, member_bests=[min(objs)],
+           through='best objective over all evaluated points')
+        ck(tuple(xopt) in set(c[0] for c in probe.calls), 'reported solution is the best member\'s solution', best=xopt, winners=[])
+    obs.event('members', n); obs.event('wrapper_cases')
+    obs.nontrivial = probe.n > 10 * n
+    obs.notes = {'cost_calls': probe.n, 'fopt': fopt}
+
+
 def run_generators(rng, obs):
     from mystic.math.grid import gridpts, samplepts, fillpts, randomly_bin
     from mystic.math.samples import random_samples
@@ -192,4 +237,4 @@ def run_case(cls, idx, rng, obs):
     import warnings
     warnings.simplefilter('ignore')
     np.seterr(all='ignore')
-    return {'ensembles': run_ensemble, 'generators': run_generators}[cls](rng, obs)
+    return {'ensembles': run_ensemble, 'generators': run_generators, 'wrappers': run_wrappers}[cls](rng, obs)
